@@ -32,7 +32,7 @@ var kindTypes = map[string]reflect.Type{
 	"int16": reflect.TypeOf(int16(0)), "int32": reflect.TypeOf(int32(0)), "int64": reflect.TypeOf(int64(0)),
 	"float32": reflect.TypeOf(float32(0)), "float64": reflect.TypeOf(float64(0)),
 	"any": reflect.TypeOf((*interface{})(nil)).Elem(), "big": reflect.TypeOf((*decimal.Big)(nil)), "time": reflect.TypeOf(time.Time{}),
-	"strs": reflect.TypeOf([]string(nil)), "ints": reflect.TypeOf([]int(nil)), "anys": reflect.TypeOf([]interface{}(nil)),
+	"strs": reflect.TypeOf([]string(nil)), "ints": reflect.TypeOf([]int(nil)), "i32s": reflect.TypeOf([]int32(nil)), "anys": reflect.TypeOf([]interface{}(nil)),
 	"smap": reflect.TypeOf(map[string]interface{}(nil)),
 }
 
